@@ -97,6 +97,9 @@ v('C07', 'fire', KA, 'cho_solve((L, True), HP', 'cho_solve((L, False), HP')
 v('C07', 'fire', KA, 'S = HP @ H.T + R', 'S = HP @ H.T')
 v('C07 C19', 'fire', KA, 'K = cho_solve((L, True), HP, overwrite_b=True).T', 'K = cho_solve((L, True), P, overwrite_b=True).T')
 v('C07', 'silent', KA, 'U = np.eye(len(x)) - K.dot(H)', 'U = np.identity(len(x)) - K @ H')
+v('C06', 'fire', 'measurements.py', '        self.R = sd**2 * np.eye(3)', '        self.R = sd * np.eye(3)', 'noise matrix holds the standard deviation instead of the variance')
+v('C06 C13', 'fire', 'measurements.py', '            R = R[:2, :2]', '            R = R[1:, 1:]', '2-D noise block taken from the east/down components')
+v('C06', 'silent', 'measurements.py', '        self.R = sd**2 * np.eye(3)', '        self.R = np.diag([sd * sd] * 3)', 'same variance matrix, other spelling')
 v('C19 C16', 'fire', 'earth.py', '    n = 1 if re.ndim == 0 else len(re)', '    n = 1', 'stacked form of curvature_matrix allocates one row (broadcasting error for n > 1)')
 v('C01 C04', 'fire', '_numba_integrate.py', '        rho1 = V2 / re\n', '        rho1 = V2 / rn\n', 'seeded C01 round 3: east transport rate with the meridian radius (velocity update only)')
 v('C10 C11 C12', 'fire', 'filters.py', """    start_time = times[0]
